@@ -3,6 +3,7 @@
 -/
 import CSD.Driver.Dict
 import CSD.Model.PFC
+import CSD.Model.Hash
 
 namespace CSD.Driver
 
@@ -18,9 +19,46 @@ def pfcModel (c : Case) : DictModel :=
     image := PFC.save d
     exact := true }
 
+/-- `(uint)(elements * (1 + overhead / 100.0))`: exact for overheads that are multiples of 25
+(1 + ov/100 is then a binary fraction); otherwise the case carries `hs`, the value the same
+double expression gives in the generator. -/
+def hashSize (c : Case) (n : Nat) : Option Nat :=
+  match c.par.lookup "hs" with
+  | some v => v.toNat?
+  | none =>
+    let ov := c.geti "ov" 25
+    if ov % 25 = 0 then some (n * (100 + ov) / 100) else none
+
+/-- HASHRPDAC: exact IDs from the model of the hash functions and of double hashing. -/
+def hashrpdacModel (c : Case) : DictModel :=
+  let base := specModel c
+  let S := c.strs.toList
+  match hashSize c S.length with
+  | none => base
+  | some hs =>
+    let d := Hash.build hs S
+    { base with
+      locate := fun q => some (Hash.locate d q)
+      extract := fun i => some (Hash.extract d i)
+      exact := true }
+
+/-- HASHRPDACBlocks: cut, per-part hash tables, routing by samples and starting indexes. -/
+def blocksModel (c : Case) : DictModel :=
+  let base := specModel c
+  let S := c.strs.toList
+  let ov := c.geti "ov" 25
+  if ov % 25 ≠ 0 then base else
+  let d := Hash.buildBlocks (c.geti "cut" 64) (fun k => k * (100 + ov) / 100) S
+  { base with
+    locate := fun q => some (Hash.locateBlocks d q)
+    extract := fun i => some (Hash.extractBlocks d i)
+    exact := true }
+
 def modelFor (c : Case) : DictModel :=
   match c.kind with
   | "PFC" => pfcModel c
+  | "HASHRPDAC" => hashrpdacModel c
+  | "BLOCKS" => blocksModel c
   | _ => specModel c
 
 end CSD.Driver
